@@ -376,6 +376,8 @@ def s6b(ctx, rep):
                   [("status not in [paused, stopping, stopped]", not_hidden)],
                   "results written after a stop / pause decision are delivered to the scheduler (or results of running trials are hidden)")
     event_dispatch(ctx, rep, "S6")
+    from . import c10
+    c10.delay_roles(ctx, rep, "S6")
 
 
 def event_dispatch(ctx, rep, clause):
